@@ -167,7 +167,37 @@ def run_state(s):
                 viol.append(dict(sig=dict(oracle="mach_continuity", observable="sec_forces"), msg="|F(M=%g)-F(0)|/|F| = %.2e exceeds 20 M^2" % (lad[k], d[k]), measure=float(d[k])))
             if k > 1 and not d[k] >= d[k - 1] - 1e-10:
                 viol.append(dict(sig=dict(oracle="mach_monotone", observable="sec_forces"), msg="departure from M=0 not increasing along the ladder", measure=float(d[k])))
-        nt = d[-1] > 1e-6
-        dg = digest_arrays(np.array(d))
         tr = len(lad)
+        # (2) every result is an even, smooth function of M near 0: F(M) = F(0) + c M^2 + O(M^4).  On a logarithmic ladder the
+        # quotient |F(M) - F(0)| / M^2 must therefore settle (a switch between formulas at some small Mach number makes it jump)
+        p = aero(ms, syms, s["alpha"], 0.0, 0.0, True)
+
+        def F_at(M):
+            p.set_val("Mach_number", M)
+            p.run_model()
+            return np.concatenate([F.ravel() for F in forces(p, n)])
+
+        F0 = F_at(0.0)
+        lad2 = [1e-5, 1e-4, 1e-3, 2e-3, 5e-3, 1e-2, 2e-2, 5e-2]
+        r = np.array([np.abs(F_at(M) - F0).max() / sc / M**2 for M in lad2])
+        tr += len(lad2) + 1
+        if r[-1] > 1e-3:
+            for k, M in enumerate(lad2[:-1]):
+                validated += 1
+                noise = 1e-13 / M**2
+                if not abs(r[k] - r[-1]) <= 0.05 * r[-1] + noise:
+                    viol.append(dict(sig=dict(oracle="mach_continuity_quotient", observable="sec_forces"), msg="|F(M)-F(0)|/M^2 is %.4g at M=%g but %.4g at M=%g: the results do not vary smoothly with Mach near 0" % (r[k], M, r[-1], lad2[-1]), measure=float(abs(r[k] - r[-1]) / r[-1])))
+        # (3) fine sweep up to M = 0.9: consecutive increments of a smooth function change slowly; a jump at a threshold adds its
+        # height to one increment
+        grid = list(np.arange(2.5e-3, 0.1, 5e-4)) + list(np.arange(0.1, 0.9001, 2.5e-3))
+        Fg = [F_at(float(M)) for M in grid]
+        tr += len(grid)
+        D = np.array([np.abs(Fg[i + 1] - Fg[i]).max() / sc / (grid[i + 1] - grid[i]) for i in range(len(grid) - 1)])
+        for i in range(1, len(D)):
+            validated += 1
+            if not abs(D[i] - D[i - 1]) <= 0.3 * max(D[i], D[i - 1]) + 1e-9:
+                viol.append(dict(sig=dict(oracle="mach_continuity_sweep", observable="sec_forces"), msg="increment of the forces per unit Mach changes from %.4g to %.4g between M=%.4f and M=%.4f: jump" % (D[i - 1], D[i], grid[i], grid[i + 1]), measure=float(abs(D[i] - D[i - 1]) / max(D[i], D[i - 1]))))
+                break
+        nt = d[-1] > 1e-6
+        dg = digest_arrays(np.array(d), r)
     return dict(viol=viol, nontrivial=bool(nt), digest=dg, transitions=tr, validated=validated)
